@@ -1,6 +1,7 @@
 """C17 — caps and utilisation: limits hold after every user action."""
 import gen_bank as G
 import gen_hops as H
+from props import c20 as C20
 ID = "C17"
 MANIFEST = {
     "text": ("Kernel-checked theorems over the bank/wrapper model for all limits, share values and amounts: a successful deposit "
@@ -37,7 +38,11 @@ def suites(rng, tier):
     a = [G.gen_case(rng, max_ops=26, limits="mixed", liq_ops=True) for _ in range(n)]
     m = {"quick": 500, "thorough": 8000, "search": 6000}[tier]
     b = [H.gen_case(rng) for _ in range(m)] + [gen_up_to(rng) for _ in range(m // 3)]
-    return [{"suite": "bankops", "name": "bankops-limits", "lines": a, "distribution": {"cases": n}},
+    dl = [f"dlimit {rng.choice([0, 1, 10 ** 6, 10 ** 9, 10 ** 12, U64, rng.randrange(0, 1 << 64)])} {rng.choice(list(range(0, 24)) + [9, 10, 12, 18, 19, 20])}"
+          for _ in range({"quick": 600, "thorough": 6000, "search": 3000}[tier])]
+    return [{"suite": "xrate", "name": "venue-deposit-cap-scaling", "lines": dl,
+             "distribution": {"cases": len(dl), "note": "the deposit cap of a Drift bank is compared in 9-decimal scaled-balance units: scale_drift_deposit_limit(limit, mint decimals) must be the cap times 10^(9 - decimals) exactly (floor), for every mint precision - a cap scaled the wrong way lets deposits through above the configured limit"}},
+            {"suite": "bankops", "name": "bankops-limits", "lines": a, "distribution": {"cases": n}},
             {"suite": "hops", "name": "hops-limits", "lines": b, "distribution": {"cases": len(b), "up_to_limit_scenarios": m // 3}}]
 
 
@@ -63,6 +68,8 @@ def gen_up_to(rng):
 
 
 def nontrivial(suite, case, impl):
+    if suite == "xrate":
+        return impl.split()[0].lstrip("-").isdigit()
     if suite == "bankops":
         c = G.parse_case(case)
         if all(b["dep_limit"] == U64 and b["bor_limit"] == U64 for b in c["banks"]):
@@ -100,6 +107,11 @@ def check_bank(k, cfg, before, after, key_prefix=""):
 
 
 def oracle(suite, case, impl):
+    if suite == "xrate":
+        v = C20.oracle(suite, case, impl)
+        if v:
+            return {"key": "venue-deposit-cap-misscaled:" + v["key"], "what": v["what"]}
+        return None
     if suite == "bankops":
         c = G.parse_case(case)
         outs = G.parse_out(impl)
